@@ -19,8 +19,13 @@ const SOUP: &[&str] = &[
     "f x", "f(x)", "x[0]", "{x = 1}", "{1: 2}", "[1; 3]", "(x, y)", "x: Int", "-> Int", "|T|", "<:", ":>", ".0", "1.", "e", "E", "isnot!", "is!",
 ];
 
+/// small core alphabet: every short sequence over it is enumerated, longer ones sampled
+const CORE: &[&str] = &["f", "x", "1", ",", "(", ")", "[", "]", "{", "}", ":", "=", "->", ".", "\n", "\n    ", "|", ";", "-", "*", "do", "\"s\""];
+
 #[derive(Serialize, Deserialize, Clone, Debug)]
 pub enum Case {
+    /// indices into CORE, separated by single spaces
+    Core(Vec<u8>),
     Soup(Vec<(u32, bool)>),
     Corpus(u32, u32, u32, u8),
     Text(String),
@@ -93,6 +98,11 @@ fn soup_text(toks: &[(u32, bool)]) -> String {
 fn source(case: &Case) -> String {
     match case {
         Case::Soup(t) => soup_text(t),
+        Case::Core(t) => {
+            let mut s: String = t.iter().map(|i| CORE[*i as usize % CORE.len()]).collect::<Vec<_>>().join(" ");
+            s.push('\n');
+            s
+        }
         Case::Corpus(a, b, c, d) => corpus_text(*a, *b, *c, *d),
         Case::Text(s) => s.clone(),
         Case::Nest(sh, d) => nest_source(*sh, *d),
@@ -110,6 +120,7 @@ impl Property for C09 {
     fn strategy(&self, _tier: Tier) -> BoxedStrategy<Case> {
         prop_oneof![
             5 => proptest::collection::vec((any::<u32>(), proptest::bool::weighted(0.7)), 1..30).prop_map(Case::Soup),
+            4 => proptest::collection::vec(0u8..CORE.len() as u8, 4..14).prop_map(Case::Core),
             4 => (any::<u32>(), any::<u32>(), any::<u32>(), any::<u8>()).prop_map(|(a, b, c, d)| Case::Corpus(a, b, c, d)),
             1 => "[ -~\\n]{0,60}".prop_map(Case::Text),
             1 => (0u8..SHAPES.len() as u8, 1u32..1000).prop_map(|(s, d)| Case::Nest(s, d)),
@@ -121,6 +132,21 @@ impl Property for C09 {
     }
     fn fixed_cases(&self, _tier: Tier) -> Vec<Case> {
         let mut v = vec![];
+        // every sequence of up to 3 (quick) / 4 (thorough) core tokens
+        let maxlen = _tier.pick(3, 4);
+        let mut cur: Vec<Vec<u8>> = vec![vec![]];
+        for _ in 0..maxlen {
+            let mut next = vec![];
+            for p in &cur {
+                for k in 0..CORE.len() as u8 {
+                    let mut q = p.clone();
+                    q.push(k);
+                    v.push(Case::Core(q.clone()));
+                    next.push(q);
+                }
+            }
+            cur = next;
+        }
         for s in 0..SHAPES.len() as u8 {
             for d in [1u32, 2, 5, 10, 20, 50, 100, 150, 199, 200, 201, 250, 300, 500, 1000, 3000] {
                 v.push(Case::Nest(s, d));
@@ -140,7 +166,7 @@ impl Property for C09 {
     fn render(&self, case: &Case) -> serde_json::Value {
         match case {
             Case::Nest(s, d) => json!({"kind": "nest", "shape": SHAPES[*s as usize % SHAPES.len()], "depth": d}),
-            other => json!({"kind": match other { Case::Soup(_) => "soup", Case::Corpus(..) => "corpus-mutation", _ => "text" }, "source": vkit::util::truncate(&source(other), 400)}),
+            other => json!({"kind": match other { Case::Soup(_) => "soup", Case::Core(_) => "core-sequence", Case::Corpus(..) => "corpus-mutation", _ => "text" }, "source": vkit::util::truncate(&source(other), 400)}),
         }
     }
     fn run(&self, case: &Case) -> Outcome {
